@@ -218,7 +218,7 @@ Proof.
   intros HC HR. cbv zeta. pose proof (base_gram a b c alpha beta gamma r HC HR) as G. cbv zeta in G.
   assert (M : l_metrics (build a b c alpha beta gamma r) =
      M (a * a) (a * b * cosd gamma) (a * c * cosd beta) (b * a * cosd gamma) (b * b) (b * c * cosd alpha)
-       (c * a * cosd beta) (c * b * cosd alpha) (c * c)) by reflexivity.
+       (c * a * cosd beta) (c * b * cosd alpha) (c * c)) by (unfold build, setLatPar; cbv zeta; cbn [l_metrics]; f_equal; ring).
   rewrite M in G. set (B := l_base _) in *. clearbody B. destruct B as [b11 b12 b13 b21 b22 b23 b31 b32 b33].
   unfold mmul, mT in G. cbn [a11 a12 a13 a21 a22 a23 a31 a32 a33] in G. injection G as G1 G2 G3 G4 G5 G6 G7 G8 G9.
   destruct HC as [Ha Hb Hc _ _ _ _].
